@@ -73,6 +73,21 @@ def tasks(tier):
                    handler_menu=["SLEEP"], sleeper="call" if e != "deco" else "policy")
         out.append({"family": "surface-late-attempt", "cfg": cfg, "entry": e, "bound": 1,
                     "selfcheck": 0})
+    # a successful attempt whose value is an exception instance (with and without an attempt
+    # timeout, which hands the value across threads); exception groups with a single member as
+    # the attempt's failure (the group is the attempt's exception, not its member)
+    for M, at, e in itertools.product([1, 2], [None, 2], ["Retry.call", "Policy.call", "RetryPolicy.call", "deco",
+                                                        "AsyncRetry.call", "AsyncPolicy.call"]):
+        is_async = e.startswith("Async")
+        cfg = dict(M=M, alphabet=["okx", "x:T", "r:T", "ok"], attempt_timeout=at, real_executor=at is not None and not is_async,
+                   durs=[0], max_unknown=None, handler="call" if e != "deco" else None,
+                   sleeper="call" if e != "deco" else "policy",
+                   loop=is_async and at is not None, sleeper_async=is_async and at is not None)
+        out.append({"family": "surface-exception-value", "cfg": cfg, "entry": e, "bound": 1})
+    for M, e in itertools.product([1, 2, 3], ENTRIES + ["deco", "adeco"]):
+        cfg = dict(M=M, alphabet=["ok", "xg:T", "xg:P", "x:T", "r:T"], max_unknown=None,
+                   handler="call" if "deco" not in e else "policy", sleeper="call" if "deco" not in e else "policy")
+        out.append({"family": "surface-exception-group", "cfg": cfg, "entry": e, "bound": 1})
     # async: the successful attempt's return value is itself an awaitable object (a handle the
     # caller wants back, e.g. a Task or a lazy response): it is returned, not awaited
     for M, rcf, e in itertools.product([1, 2, 3], [False, True],
